@@ -50,6 +50,9 @@ pub struct Scenario {
     /// a life before the scenario proper: after a first `setup` the planner is driven with these letters
     /// (PRM: a roadmap is built from them), then `setup` is called again with the same problem
     pub prelife: Vec<u8>,
+    /// > 1: the planner is constructed and set up with step / step_raise, and the public step field is
+    /// raised to `params.step` only afterwards (what counts is the value the field has when solve runs)
+    pub step_raise: f64,
     pub params: Params,
     pub tag: String,
 }
@@ -69,6 +72,7 @@ impl Scenario {
             "goal_sampler_fails_at": format!("{:?}", self.goal_fail_at),
             "goal_sampler_fails_from": format!("{:?}", self.goal_fail_from),
             "prelife": self.prelife,
+            "step_raised_after_setup_by": self.step_raise,
             "params": self.params.json(),
             "tag": self.tag,
         })
@@ -190,7 +194,13 @@ impl<K: Kit> Rig<K> {
         let mut start_states = vec![start.clone()];
         start_states.extend(sc.extra_starts.iter().map(K::from_v));
         let pd = Arc::new(Pd::<K> { space: space.clone(), start_states, goal: goal.clone() });
-        let mut drv = Drv::<K>::new(&sc.params);
+        let mut drv = if sc.step_raise > 1.0 {
+            let mut p0 = sc.params.clone();
+            p0.step = sc.params.step / sc.step_raise;
+            Drv::<K>::new(&p0)
+        } else {
+            Drv::<K>::new(&sc.params)
+        };
         goal.mode.set(GoalMode::Script);
         goal.fail_at.set(sc.goal_fail_at);
         goal.fail_from.set(sc.goal_fail_from);
@@ -204,6 +214,9 @@ impl<K: Kit> Rig<K> {
         }
         if do_setup {
             drv.setup(pd.clone(), world.clone());
+        }
+        if do_setup && sc.step_raise > 1.0 {
+            drv.set_step(sc.params.step);
         }
         let mut rig = Rig { sc: sc.clone(), space, goal, world, pd, drv, alphabet, start };
         if do_setup && !sc.prelife.is_empty() {
